@@ -262,28 +262,36 @@ inline J run_sub(const Sub& sub, const RunOpts& o, long long cases) {
     exhaustive = ctx.exhaustive && !failing;
   }
   if (sub.gen && !failing) {
-    rc::detail::TestParams params;
-    params.seed = rcseed;
-    params.maxSuccess = (int)std::max<long long>(1, cases);
-    params.maxSize = 100;
-    params.maxDiscardRatio = 10;
+    // The budget is spent in chunks of at most 20000 cases, each its own rapidcheck run with a seed derived from
+    // (seed, shard, sub-check, chunk): memory held by a run is released between chunks (a single run of 10^6 cases
+    // grew to 9 GB per shard under ASan in the thorough tier of C10), and every chunk sweeps the sizes 0..100.
     rc::detail::TestMetadata meta; meta.id = sub.id; meta.description = sub.id;
     auto gen = sub.gen();
-    auto result = rc::detail::checkTestable(
-        [&] {
-          J rec = *gen;
-          cur().set(sub.id, rec);
-          Verdict v = safe_check(sub, rec);
-          if (!failing) account(st, v, rec, cases, true); else ++shrink_execs;
-          if (calibrate() && v.st == Verdict::FAIL) return;
-          if (v.st == Verdict::FAIL) {
-            if (!failing) { firstFail = rec; firstMsg = v.msg; }
-            failing = true; lastFail = rec; lastMsg = v.msg;
-            RC_FAIL(v.msg);
-          }
-        },
-        meta, params);
-    (void)result;
+    const long long CH = 20000;
+    long long left = std::max<long long>(1, cases);
+    for (uint64_t chunk = 0; left > 0 && !failing; ++chunk) {
+      long long n = std::min(left, CH); left -= n;
+      rc::detail::TestParams params;
+      params.seed = chunk == 0 ? rcseed : mix(rcseed, chunk);
+      params.maxSuccess = (int)n;
+      params.maxSize = 100;
+      params.maxDiscardRatio = 10;
+      auto result = rc::detail::checkTestable(
+          [&] {
+            J rec = *gen;
+            cur().set(sub.id, rec);
+            Verdict v = safe_check(sub, rec);
+            if (!failing) account(st, v, rec, cases, true); else ++shrink_execs;
+            if (calibrate() && v.st == Verdict::FAIL) return;
+            if (v.st == Verdict::FAIL) {
+              if (!failing) { firstFail = rec; firstMsg = v.msg; }
+              failing = true; lastFail = rec; lastMsg = v.msg;
+              RC_FAIL(v.msg);
+            }
+          },
+          meta, params);
+      (void)result;
+    }
   }
 
   J out = J::obj();
